@@ -13,6 +13,8 @@ import (
 	"fmt"
 	"hash/crc32"
 	"os"
+	"runtime"
+	"runtime/pprof"
 	"sort"
 	"strconv"
 	"strings"
@@ -175,6 +177,9 @@ func (w *world) snapshot() ([]tars.VerifEpState, int, string) {
 
 func (w *world) apply(ev string) {
 	before, pqBefore, _ := w.snapshot()
+	if os.Getenv("C15_DEBUG") != "" {
+		vm.Log("  before %s: %s", ev, w.key())
+	}
 	switch {
 	case ev == "call" || strings.HasPrefix(ev, "hcall") || strings.HasPrefix(ev, "mcall"):
 		ctx := current.ContextWithClientCurrent(context.Background())
@@ -287,6 +292,12 @@ func (w *world) apply(ev string) {
 			w.reachSince[i] = w.now()
 		}
 		w.servers[i].set(map[string]int{"h": healthy, "r": refusing, "s": silent}[m])
+		if m == "r" {
+			// the server has closed its connections: the next event comes a positive delay later, when
+			// the client's receive loops have seen the close (the assumption C11 states explicitly); a
+			// call issued at the very instant of the close may legitimately still use the dead connection
+			vm.Sleep(1e6)
+		}
 		vm.Log("t=%d %s", w.now(), ev)
 	case strings.HasPrefix(ev, "adv"):
 		sec, _ := strconv.Atoi(ev[3:])
@@ -579,6 +590,22 @@ func main() {
 			}
 		}
 		cases = f
+		if os.Getenv("C15_LEAK") != "" && len(cases) > 0 {
+			vm.StrictDeviations = true
+			for k := 0; k < 3000; k++ {
+				vm.Replay(cases[0].Sc, nil)
+				if k%500 == 0 {
+					var ms runtime.MemStats
+					runtime.GC()
+					runtime.ReadMemStats(&ms)
+					fmt.Println(k, "heapAlloc MB", ms.HeapAlloc>>20, "goroutines", runtime.NumGoroutine())
+				}
+			}
+			f, _ := os.Create("/tmp/prof/leak.pprof")
+			pprof.WriteHeapProfile(f)
+			f.Close()
+			os.Exit(0)
+		}
 		if os.Getenv("C15_SHOW") != "" && len(cases) > 0 {
 			vm.StrictDeviations = true
 			r := vm.Replay(cases[len(cases)-1].Sc, nil)
